@@ -1444,6 +1444,25 @@ impl JsObject {
 
     /// Get a property, searching the prototype chain
     pub fn get_property(&self, key: &PropertyKey) -> Option<JsValue> {
+        if let Some(value) = self.get_own_property_value(key) {
+            return Some(value);
+        }
+        // Walk the prototype chain iteratively: its length is under script control
+        let mut current = self.prototype.clone();
+        while let Some(proto) = current {
+            let proto_ref = proto.borrow();
+            if let Some(value) = proto_ref.get_own_property_value(key) {
+                return Some(value);
+            }
+            let next = proto_ref.prototype.clone();
+            drop(proto_ref);
+            current = next;
+        }
+        None
+    }
+
+    /// Get a property of this object itself (own or exotic), not searching the prototype chain
+    fn get_own_property_value(&self, key: &PropertyKey) -> Option<JsValue> {
         // For arrays, handle index access and length from elements Vec
         if let ExoticObject::Array { ref elements } = self.exotic {
             match key {
@@ -1577,16 +1596,35 @@ impl JsObject {
             return Some(prop.value.clone());
         }
 
-        if let Some(ref proto) = self.prototype {
-            return proto.borrow().get_property(key);
-        }
-
         None
     }
 
     /// Get a property descriptor, searching the prototype chain
     /// Returns (property, found_in_prototype)
     pub fn get_property_descriptor(&self, key: &PropertyKey) -> Option<(Property, bool)> {
+        if let Some(prop) = self.get_own_property_descriptor_value(key) {
+            return Some((prop, false));
+        }
+        // Walk the prototype chain iteratively: its length is under script control
+        let mut current = self.prototype.clone();
+        while let Some(proto) = current {
+            let proto_ref = proto.borrow();
+            if let Some(prop) = proto_ref.get_own_property_descriptor_value(key) {
+                return Some((prop, true));
+            }
+            let next = proto_ref.prototype.clone();
+            drop(proto_ref);
+            current = next;
+        }
+        None
+    }
+
+    /// Descriptor of a property of this object itself (own or exotic)
+    fn get_own_property_descriptor_value(&self, key: &PropertyKey) -> Option<Property> {
+        self.get_property_descriptor_no_proto(key).map(|(p, _)| p)
+    }
+
+    fn get_property_descriptor_no_proto(&self, key: &PropertyKey) -> Option<(Property, bool)> {
         // For arrays, handle index access and length from elements Vec
         if let ExoticObject::Array { ref elements } = self.exotic {
             match key {
